@@ -350,6 +350,16 @@ pub fn xfer(prop: &'static str, tier: Tier, w: &Arc<World>) -> Scn {
         len = 65535 * 8 + d.pick("swarm.full_window.extra", &[3usize, 0, 8, 19]);
         full_window = true;
     }
+    if prop == "C08" && !full_window && kind == Kind::Upload && d.chance("swarm.big_window_upload", 1, 150) {
+        // more than a mebibyte arrives inside one window: the acknowledgement is still due after windowsize blocks
+        let (b, wz) = d.pick("swarm.big_up.shape", &[(16384usize, 80u64), (65464, 17), (512, 2100), (8192, 150)]);
+        oc0.opts = vec![("blksize".into(), b.to_string()), ("windowsize".into(), wz.to_string())];
+        oc0.b = b;
+        oc0.w = wz;
+        oc0.tmo_s = 5;
+        len = b * wz as usize + d.pick("swarm.big_up.tail", &[100usize, 0, b * 3 + 7]);
+        full_window = true;
+    }
     let mut wrap_class = false;
     if prop == "C04" && d.chance("swarm.wrap_class", 1, if tier == Tier::Thorough { 700 } else { 2500 }) {
         // "the loss of any one DATA or ACK" also holds for the datagrams that carry block numbers 65535, 0, 1
@@ -510,6 +520,7 @@ pub fn xfer(prop: &'static str, tier: Tier, w: &Arc<World>) -> Scn {
     let budget_max: u32 = if tier == Tier::Thorough { 10 } else { 4 };
     let mut rules = Rules::default();
     let mut faultfree = false;
+    let mut wire_only = false;
 
     match prop {
         "C01" | "C02" => {
@@ -613,6 +624,12 @@ pub fn xfer(prop: &'static str, tier: Tier, w: &Arc<World>) -> Scn {
                             xc.script.push((step, Adv::AckDup));
                         }
                         xc.script.push((step, Adv::Silent));
+                        if kind == Kind::Download && d.chance("swarm.c07.strays_after_silence", 1, 3) {
+                            // after k of the sender's timeouts the dead peer's socket emits a few well-formed packets of
+                            // the wrong kind, then nothing again: the retry count must still end at its bound
+                            let k = 1 + d.range("swarm.c07.strays.after_timeouts", 5) as Ns;
+                            xc.strays_after_silence = Some((k * oc.tmo_s * SEC + oc.tmo_s * SEC / 2, 1 + d.range("swarm.c07.strays.count", 4)));
+                        }
                     }
                     conformant = false;
                     // half of the dying peers close their socket: the server then sees ICMP port
@@ -628,6 +645,14 @@ pub fn xfer(prop: &'static str, tier: Tier, w: &Arc<World>) -> Scn {
                 }
                 2 => {
                     // complete transfers with assorted acknowledgement patterns
+                    if kind == Kind::Download && !wrap_class && len > 0 && d.chance("swarm.c07.file_shrinks", 1, 4) {
+                        // the served file is cut short while it is being downloaded (log rotation, an overwrite):
+                        // the transfer ends with the first short block, judged on the wire alone
+                        let at = 1 + d.range("swarm.c07.shrink.at_block", nblocks.min(40)) as u64;
+                        let newlen = d.range("swarm.c07.shrink.to", len as u32) as u64;
+                        xc.truncate_at_block = Some((at, path.clone(), newlen));
+                        wire_only = true;
+                    }
                 }
                 _ => {
                     fc.fate_w = [30, 3, 2, 2, 0, 0];
@@ -757,7 +782,12 @@ pub fn xfer(prop: &'static str, tier: Tier, w: &Arc<World>) -> Scn {
             bystander = Some(bp);
         }
     }
-    w.add_monitor(Box::new(XferMon::new(prop, rules, specs, dupn)));
+    if wire_only {
+        // the file changes under the transfer: content-based rules do not apply, the wire rules do
+        w.add_monitor(Box::new(crate::more_mon::WireEndMon::new(client)));
+    } else {
+        w.add_monitor(Box::new(XferMon::new(prop, rules, specs, dupn)));
+    }
     boot_server(w, &srv).expect("server config");
     w.start_peer_at(peer, 10 * MS);
     if let Some((bp, at)) = bystander {
